@@ -1,5 +1,6 @@
 (* C13 - defused parsing refuses every entity declaration before any expansion. *)
 From XV Require Import Base Defuse DefuseProofs.
+From XV Require Reader ReaderProofs.
 
 Theorem C13_prescan_iff : forall cbs,
   prescan cbs = Forbidden <->
@@ -36,3 +37,19 @@ Example C13_example : prescan ex_doc = Forbidden /\ scanned ex_doc = 3 /\
 Proof. vm_compute. repeat split. Qed.
 Example C13_example_wellformed : wellformed ex_doc.
 Proof. apply wfb_sound. vm_compute. reflexivity. Qed.
+
+(* ---- the replay buffer in front of a stream that cannot be rewound (model: Reader.v; repair 24cc302) *)
+Theorem C13_buffer_filled_for_every_read_schedule : forall want sched data,
+  Reader.fill want want sched data = (firstn want data, skipn want data).
+Proof. exact ReaderProofs.fill_complete. Qed.
+Print Assumptions C13_buffer_filled_for_every_read_schedule.
+
+Theorem C13_scan_then_parse_same_bytes : forall want sched data scanned,
+  scanned <= want -> Reader.scan_then_parse (Reader.mk_reader want sched data) scanned = Some data.
+Proof. exact ReaderProofs.scan_then_parse_same. Qed.
+Print Assumptions C13_scan_then_parse_same_bytes.
+
+Theorem C13_single_read_refuted : exists want sched data scanned,
+  scanned <= want /\ Reader.scan_then_parse (Reader.mk_reader_once want sched data) scanned = None.
+Proof. exact ReaderProofs.fill_once_refuted. Qed.
+Print Assumptions C13_single_read_refuted.
